@@ -1,11 +1,165 @@
-/- Driver ops for C04. -/
+/- Driver ops for C04 (normal equations in the mapping and the w-tilde formalism). -/
 import Driver.Loop
+import Model.NormalEq
 
 open Lean Model
 
 namespace Driver.C04
 
-def ops : List (String × Op) := []
+def getPair (j : Json) : Except String (Nat × Rat) := do
+  match (← getArr j) with
+  | [a, b] => pure ((← getNat a), (← getRat b))
+  | _ => throw "expected [index, value]"
+
+def getRows (j : Json) : Except String (Rows Rat) := getList (getList getPair) j
+
+def rowsToJson (r : Rows Rat) : Json :=
+  listToJson (listToJson fun (e : Nat × Rat) => Json.arr #[natToJson e.1, ratToJson e.2]) r
+
+def getKernel (j : Json) : Except String (Kernel Rat) := do
+  let kh ← getNat (← field j "kh")
+  let kw ← getNat (← field j "kw")
+  let vals ← getRats (← field j "vals")
+  if vals.length ≠ kh * kw then throw "kernel length mismatch"
+  pure { kh := kh, kw := kw, vals := vals }
+
+def getObj (j : Json) : Except String (LinObj Rat) := do
+  let kind ← getStr (← field j "kind")
+  let hasReg ← getBool (← field j "has_reg")
+  match kind with
+  | "mapper" =>
+    let t : MapperTables Rat := {
+      pixels := ← getNat (← field j "pixels")
+      subRows := ← getRows (← field j "sub_rows")
+      slimForSub := ← getNats (← field j "slim_for_sub")
+      subFraction := ← getRats (← field j "sub_fraction")
+      subSize := ← getNats (← field j "sub_size") }
+    pure (.mapper t hasReg)
+  | "func" =>
+    let p ← getNat (← field j "params")
+    let M ← getRatMat (← field j "matrix")
+    pure (.funcList p M hasReg)
+  | _ => throw "bad object kind"
+
+def getDataset (j : Json) : Except String (Dataset Rat) := do
+  let m ← getMask (← field j "mask")
+  let K ← getKernel (← field j "kernel")
+  let d ← getRats (← field j "data")
+  let nz ← getRats (← field j "noise")
+  let n := (Impl.nativeForSlim m).length
+  if d.length ≠ n ∨ nz.length ≠ n then throw "shape_mismatch"
+  if K.kh % 2 = 0 ∨ K.kw % 2 = 0 then throw "even_kernel"
+  pure { mask := m, kernel := K, data := d, noise := nz }
+
+def matToJson (M : Mat Rat) : Json := ratMatToJson M.toLists
+def vecToJson (v : Vec Rat) : Json := ratsToJson v.toList
+
+/-- exact solution of `A x = b` by Gauss–Jordan elimination with first-non-zero pivoting
+    (the contract assumed of `numpy.linalg.solve`); `none` = singular. -/
+def solve (A : List (List Rat)) (b : List Rat) : Option (List Rat) := Id.run do
+  let n := b.length
+  let mut M : Array (Array Rat) := (A.zip b).toArray.map fun (r, bi) => (r ++ [bi]).toArray
+  for col in [0:n] do
+    let mut piv := n
+    for r in [col:n] do
+      if piv = n ∧ (M[r]!)[col]! ≠ 0 then piv := r
+    if piv = n then return none
+    let tmp := M[col]!
+    M := M.set! col (M[piv]!)
+    M := M.set! piv tmp
+    let p := (M[col]!)[col]!
+    M := M.set! col ((M[col]!).map (· / p))
+    for r in [0:n] do
+      if r ≠ col then
+        let f := (M[r]!)[col]!
+        if f ≠ 0 then
+          let rowc := M[col]!
+          M := M.set! r ((M[r]!).mapIdx fun k x => x - f * rowc[k]!)
+  return some ((List.range n).map fun r => (M[r]!)[n]!)
+
+/-- the factory's choice (`inversion_imaging_from`): w-tilde only when requested and at least one
+    object is not a function list -/
+def usesWTilde (useWTilde : Bool) (objs : List (LinObj Rat)) : Bool :=
+  useWTilde && !(objs.all fun o => !o.isMapper)
+
+/-- the whole inversion, observable level -/
+def inversion : Op := fun j => do
+  let ds ← getDataset j
+  let objs ← getList getObj (← field j "objs")
+  let eps ← getRat (← field j "eps")
+  let useW ← getBool (← field j "use_w_tilde")
+  let wt := usesWTilde useW objs
+  let n := (Impl.nativeForSlim ds.mask).length
+  let opList := Impl.operatedList ds objs
+  let B := Impl.operatedMappingMatrix ds objs
+  let D := if wt then Impl.dataVectorWT ds objs else Impl.dataVectorMap ds objs
+  let F := if wt then Impl.curvatureWT ds objs eps else Impl.curvatureMap ds objs eps
+  let mut out : List (String × Json) :=
+    [("formalism", Json.str (if wt then "w_tilde" else "mapping")),
+     ("operated_mapping_matrix", matToJson B),
+     ("data_vector", vecToJson D), ("curvature_matrix", matToJson F)]
+  -- reconstruction (optional): solve (F + H) s = D exactly, then map back to the image plane
+  match (j.getObjVal? "reg_matrix").toOption with
+  | none => pure ()
+  | some hj =>
+    let H ← getRatMat hj
+    let FH := (F.toLists.zip H).map fun (r, hr) => (r.zip hr).map fun (a, b) => a + b
+    match solve FH D.toList with
+    | none => out := out ++ [("reconstruction", Json.str "singular")]
+    | some s =>
+      let rs := Impl.paramRanges objs
+      let fr := Impl.frames ds.mask ds.kernel
+      let parts : List (List Rat) := (objs.zip (rs.zip opList)).map fun (o, (r, Bo)) =>
+        let so := (s.drop r.1).take (r.2 - r.1)
+        if wt then
+          match o with
+          | .mapper t _ =>
+            (Impl.convolveNoBlurring fr (Impl.mappedViaUnique (Impl.uniqueFrom t n) so).toList).toList
+          | .funcList _ _ _ => (Impl.mappedViaMatrix Bo so).toList
+        else (Impl.mappedViaMatrix Bo so).toList
+      let total := parts.foldl (fun acc p => (acc.zip p).map fun (a, b) => a + b)
+        (List.replicate n (0 : Rat))
+      out := out ++ [("reconstruction", ratsToJson s), ("mapped_reconstructed_data", ratsToJson total)]
+  pure (obj out)
+
+/-- util level: the w-tilde tables and the per-mapper quantities -/
+def wtildeUtils : Op := fun j => do
+  let ds ← getDataset j
+  let n := (Impl.nativeForSlim ds.mask).length
+  let wtd := Impl.wTildeDataOf ds
+  let pre := Impl.wTildePreloadOf ds
+  let idx := Impl.nativeForSlim ds.mask
+  let nn := Impl.nativeFrom ds.mask ds.noise 0
+  let full : List (List Rat) := idx.map fun a => idx.map fun b =>
+    Impl.wTildeCurvatureValue ds.mask.w nn ds.kernel a b
+  let mut out : List (String × Json) :=
+    [("w_tilde_data", ratsToJson wtd), ("preload", rowsToJson pre), ("w_tilde", ratMatToJson full)]
+  match (j.getObjVal? "mapper").toOption with
+  | none => pure ()
+  | some mj =>
+    match (← getObj mj) with
+    | .mapper t _ =>
+      let U := Impl.uniqueFrom t n
+      out := out ++ [("unique", rowsToJson U),
+        ("mapping_matrix", matToJson (Impl.mappingMatrixFrom t n)),
+        ("data_vector", vecToJson (Impl.dataVectorWTilde wtd U t.pixels)),
+        ("curvature", matToJson (Impl.curvatureFromPreload pre U t.pixels))]
+    | _ => throw "expected mapper"
+  pure (obj out)
+
+def mirrored : Op := fun j => do
+  let rows ← getRatMat (← field j "matrix")
+  let n := rows.length
+  pure (matToJson (Impl.mirrored (Mat.ofLists n n rows)))
+
+def frames : Op := fun j => do
+  let m ← getMask (← field j "mask")
+  let K ← getKernel (← field j "kernel")
+  pure (rowsToJson (Impl.frames m K))
+
+def ops : List (String × Op) :=
+  [("c04.inversion", inversion), ("c04.wtilde_utils", wtildeUtils), ("c04.mirrored", mirrored),
+   ("c04.frames", frames)]
 
 end Driver.C04
 
